@@ -139,6 +139,7 @@ struct Cfg {
   std::string sub{"A"};
   uint64_t hang_s{20};
   uint64_t step{0};
+  uint64_t heavy{2};  // churnstorm flavour: 0 moderate, 1 heavy, 2 by seed parity
   uint64_t pace_ns{2000};
   uint64_t fwdchaos{0};
   uint64_t preempt{0};
@@ -652,7 +653,7 @@ RunChurnStorm()
   r.Seed(g_cfg.seed * 424243 + kN);
   // two flavours: moderate over-subscription with short holds, or heavy CPU over-subscription with no hold at all
   // (the second one lets claimers be preempted between the two steps of a lost race)
-  const bool heavy = (g_cfg.seed & 1) != 0;
+  const bool heavy = g_cfg.heavy == 2 ? (g_cfg.seed & 1) != 0 : g_cfg.heavy != 0;
   const size_t drivers = heavy ? 64 : std::min<size_t>(3 * kN, 48);
   const uint64_t per_driver = (heavy ? 150 : 400) * g_cfg.scale;
   const uint64_t hold_ns = heavy ? 0 : r.Range(20000, 120000);
@@ -2570,6 +2571,7 @@ main(int argc, char **argv)
   g_cfg.fwdchaos = a.U("fwdchaos", 0);
   g_cfg.preempt = a.U("preempt", 0);
   g_cfg.step = a.U("step", 0);
+  g_cfg.heavy = a.U("heavy", 2);
   if (g_cfg.preempt != 0) PreempterStart(g_cfg.seed, 30, 400, 20, 400);
   if (g_cfg.mode == "id") return idm::Run();
   if (g_cfg.mode == "storm") return idm::RunStorm();
